@@ -3,6 +3,7 @@ import sys, os, re
 sys.path.insert(0, os.path.join(os.path.dirname(os.path.abspath(__file__)), '..', 'mv'))
 sys.path.insert(0, os.path.join(os.path.dirname(os.path.abspath(__file__)), '..'))
 import framework
+import c17
 import build
 from c17 import c_signatures
 
@@ -34,7 +35,22 @@ def strip_comment(line):
 
 def parse_fortran(path):
     """-> list of dict(fname, cname, kind 'subroutine'|'function', result, args=[dict(name, type, value, array, proc, proc_args)])"""
-    lines = [strip_comment(l) for l in open(path).read().split('\n')]
+    raw = [strip_comment(l) for l in open(path).read().split('\n')]
+    # free-form continuation: a trailing '&' joins the next line (whose leading '&' is dropped)
+    lines, acc = [], None
+    for l in raw:
+        t = l.strip()
+        if acc is not None:
+            t = t[1:].lstrip() if t.startswith('&') else t
+            acc = acc + ' ' + t
+        else:
+            acc = l
+        if acc.rstrip().endswith('&'):
+            acc = acc.rstrip()[:-1]
+            lines.append('')            # keep the line count
+            continue
+        lines.append(acc)
+        acc = None
     out = []
     i = 0
     hdr = re.compile(r'^\s*(?:(real|integer|character)\s*\(\s*(\w+)\s*\)\s+)?(subroutine|function)\s+(\w+)\s*\(([^)]*)\)\s*bind\s*\(\s*C\s*,\s*name\s*=\s*[\'"](\w+)[\'"]\s*\)', re.I)
@@ -80,13 +96,13 @@ def parse_fortran(path):
                                 cur_proc['decls'][nm] = dict(type=(dm.group(1), dm.group(2)), value='value' in attrs)
                     elif low.startswith('end function'):
                         cur_proc = None
-                    elif low in ('import', '') or low.startswith('use ') or low.startswith('implicit'):
+                    elif low == '' or low.startswith(('use', 'import', 'implicit')):
                         pass
                     else:
                         raise Unparsed('%s: line %d: %r' % (fname, i + 1, l))
                 i += 1
                 continue
-            if low == '' or low.startswith('use ') or low.startswith('implicit') or low == 'import':
+            if low == '' or low.startswith(('use', 'import', 'implicit')):
                 i += 1
                 continue
             dm = re.match(r'^(real|integer|character)\s*\(\s*(\w+)\s*\)\s*((?:,\s*[\w()*]+\s*)*)::\s*(.+)$', l, re.I)
@@ -107,6 +123,8 @@ def parse_fortran(path):
             d = dict(d)
             d['name'] = a
             alist.append(d)
+        if kind.lower() == 'function' and result is None and fname.lower() in decls:
+            result = decls[fname.lower()]['type']           # result type declared in the body
         out.append(dict(fname=fname, cname=cname, kind=kind.lower(), result=result, args=alist))
         i += 1
     return out
@@ -120,11 +138,17 @@ def parse_header(path):
         raise Unparsed('no extern "C" block in %s' % path)
     block = re.sub(r'/\*.*?\*/', '', m.group(1), flags=re.S)
     block = re.sub(r'//[^\n]*', '', block)
+    block = re.sub(r'^\s*#[^\n]*', '', block, flags=re.M)
+    FN_TYPEDEFS.update(c17.function_pointer_typedefs(txt))
+    block = re.sub(r'typedef[^;]*;', '', block)
     decls = {}
-    for dm in re.finditer(r'extern\s+([\w\s\*]+?)\s+(\w+)\s*\(([^;]*)\)\s*;', block):
+    for dm in re.finditer(r'(?:extern\s+)?(?:const\s+)?\b(int|double|void)\s+(masa_\w+)\s*\(([^;{}]*)\)\s*;', block):
         ret, name, params = dm.group(1).strip(), dm.group(2), dm.group(3)
         decls[name] = (ret, kinds_of(params))
     return decls
+
+
+FN_TYPEDEFS = set()
 
 
 def kinds_of(params):
@@ -142,23 +166,9 @@ def kinds_of(params):
     if cur.strip():
         parts.append(cur)
     for p in parts:
-        p = p.strip()
-        if p in ('', 'void'):
-            continue
-        if '(*' in p:
-            kinds.append('fn')
-        elif 'char' in p and '*' in p:
-            kinds.append('cstr' if 'const' in p else 'charbuf')
-        elif 'int' in p and '*' in p:
-            kinds.append('intp')
-        elif 'double' in p and ('*' in p or '[' in p):
-            kinds.append('dblp')
-        elif p.startswith('double'):
-            kinds.append('dbl')
-        elif p.startswith('int'):
-            kinds.append('int')
-        else:
-            kinds.append('?' + p)
+        k_ = c17.param_kind(p, FN_TYPEDEFS)
+        if k_ is not None:
+            kinds.append(k_)
     return kinds
 
 
